@@ -28,6 +28,15 @@ def run(ctx, case):
     ok, blk = ctx.must(lambda: specs.build(spec, hints), f"{t}/build", f"constructing a valid {t} block")
     if not ok:
         return
+    if case.get("after_failed_encode"):
+        # an encode that the library (rightly) refuses must not leave anything behind that leaks into the next, valid one
+        bad = specs.invalid_variant(spec)
+        if bad is not None:
+            try:
+                specs.lib_write(specs.build(bad, hints))
+                ctx.label("prior-encode-unexpectedly-accepted")
+            except Exception:  # noqa - the refusal itself is C13's / C07's subject
+                ctx.label("after-aborted-encode")
     ok, w = ctx.must(lambda: specs.lib_write(blk), f"{t}/encode", f"encoding a valid {t} block")
     if not ok:
         return
@@ -89,7 +98,8 @@ def _long_strategy(tier):
 
 def _strategy(t):
     def s(tier):
-        return st.fixed_dictionaries({"spec": specs.SPEC[t](tier), "hints": specs.HINTS, "poison": st.sampled_from(poison.POISON_BYTES)})
+        return st.fixed_dictionaries({"spec": specs.SPEC[t](tier), "hints": specs.HINTS, "poison": st.sampled_from(poison.POISON_BYTES),
+                                      "after_failed_encode": st.sampled_from([False, False, True])})
 
     return s
 
